@@ -222,7 +222,7 @@ def replay(case):
 
 def main(tier, seed, t0):
     quick = tier == "quick"
-    col = core.run_shards(worker, [(seed * 1000 + 1500 + k, 25 if quick else 500) for k in range(16)])
+    col = core.run_shards(worker, [(seed * 1000 + 1500 + k, 60 if quick else 800) for k in range(16)])
     need = ["op:" + o for o in R.OPS] + ["op:connect", "op:emulated-rename", "sched:cut1", "sched:cut2", "sched:cap", "sched:kway"]
     missing = [c for c in need if not col.classes.get(c)]
     if missing:
